@@ -14,7 +14,7 @@
 //!   hpack dec   <cases> <out>          decoder cases  (C11)
 //!   hpack enc   <histories> <out>      encoder histories (C10)
 //!   hpack huff  <maxlen> <extra|-> <out>   h2 huffman_decode on ALL byte strings of length <= maxlen (+ extra cases)
-//!   hpack huffx <table.json> <len> <out.json>  exhaustive length-<len> strings decided by the TLC-emitted trie
+//!   hpack huffx <table.json> <len> <out.json> [threads]  exhaustive length-<len> strings decided by the TLC-emitted trie
 //!   hpack henc  <cases> <out>          h2 huffman_encode
 //!   hpack int   <cases> <out>          prefix-integer cases through the real decoder
 //!   hpack names <per_class> <out.json> real header names per hash class (hash read from h2 itself)
@@ -683,7 +683,7 @@ fn mode_huff(maxlen: usize, extra: &str, outp: &str) {
 /// Exhaustive strings of a given length decided by the trie TLC emitted from Huffman.tla
 /// (table.json: {"trie":[{"k":node key,"b":bit,"leaf":bool,"to":node key | symbol}], "padok":[node keys], "root":1}).
 /// node key = 2^len + value of the bit prefix.
-fn mode_huffx(table: &str, len: usize, outp: &str) {
+fn mode_huffx(table: &str, len: usize, outp: &str, threads: usize) {
     let t: Value = serde_json::from_str(&std::fs::read_to_string(table).unwrap()).unwrap();
     let mut trie: std::collections::HashMap<(u64, u8), (bool, u64)> = Default::default();
     for e in t["trie"].as_array().unwrap() {
@@ -744,30 +744,56 @@ fn mode_huffx(table: &str, len: usize, outp: &str) {
             None
         }
     };
+    // the space is cut by the first octet over `threads` scoped threads (h2's decoder and the oracle are pure)
     let total: u64 = 256u64.pow(len as u32);
-    let mut s = vec![0u8; len];
+    let per_first: u64 = if len == 0 { 1 } else { total / 256 };
+    let firsts: Vec<u64> = if len == 0 { vec![0] } else { (0..256).collect() };
+    let chunks: Vec<Vec<u64>> = (0..threads).map(|t| firsts.iter().cloned().filter(|f| (*f as usize) % threads == t).collect()).collect();
+    let oracle = &oracle;
+    let results: Vec<(u64, u64, u64, Vec<Value>)> = std::thread::scope(|sc| {
+        let hs: Vec<_> = chunks
+            .iter()
+            .map(|fs| {
+                sc.spawn(move || {
+                    let mut s = vec![0u8; len];
+                    let (mut n, mut acc, mut rej_valid, mut mism) = (0u64, 0u64, 0u64, vec![]);
+                    for f in fs {
+                        for x in (f * per_first)..((f + 1) * per_first) {
+                            let mut y = x;
+                            for j in (0..len).rev() {
+                                s[j] = (y & 0xff) as u8;
+                                y >>= 8;
+                            }
+                            let exp = oracle(&s);
+                            let got = huffman_decode(&s).ok().map(|b| b.to_vec());
+                            n += 1;
+                            match (&exp, &got) {
+                                (Some(e), Some(g)) if e == g => acc += 1,
+                                (None, None) => {}
+                                (Some(_), None) => rej_valid += 1,
+                                _ => {
+                                    if mism.len() < 20 {
+                                        mism.push(json!({"b": bytes_json(&s), "exp_ok": exp.is_some(), "exp": exp.as_ref().map(|e| bytes_json(e)),
+                                                         "got_ok": got.is_some(), "got": got.as_ref().map(|e| bytes_json(e))}));
+                                    }
+                                }
+                            }
+                        }
+                    }
+                    (n, acc, rej_valid, mism)
+                })
+            })
+            .collect();
+        hs.into_iter().map(|h| h.join().expect("huffx worker")).collect()
+    });
     let (mut n, mut acc, mut rej_valid, mut mism) = (0u64, 0u64, 0u64, vec![]);
-    for x in 0..total {
-        let mut y = x;
-        for j in (0..len).rev() {
-            s[j] = (y & 0xff) as u8;
-            y >>= 8;
-        }
-        let exp = oracle(&s);
-        let got = huffman_decode(&s).ok().map(|b| b.to_vec());
-        n += 1;
-        match (&exp, &got) {
-            (Some(e), Some(g)) if e == g => acc += 1,
-            (None, None) => {}
-            (Some(_), None) => rej_valid += 1,
-            _ => {
-                if mism.len() < 20 {
-                    mism.push(json!({"b": bytes_json(&s), "exp_ok": exp.is_some(), "exp": exp.as_ref().map(|e| bytes_json(e)),
-                                     "got_ok": got.is_some(), "got": got.as_ref().map(|e| bytes_json(e))}));
-                }
-            }
-        }
+    for (a, b, c, d) in results {
+        n += a;
+        acc += b;
+        rej_valid += c;
+        mism.extend(d);
     }
+    mism.truncate(20);
     let r = json!({"len": len, "n": n, "accepted_equal": acc, "h2_rejects_valid": rej_valid, "mismatches": mism});
     std::fs::write(outp, serde_json::to_string(&r).unwrap()).unwrap();
 }
@@ -948,7 +974,7 @@ fn main() {
         "dec" => mode_dec(&a[2], &a[3]),
         "enc" => mode_enc(&a[2], &a[3]),
         "huff" => mode_huff(a[2].parse().unwrap(), &a[3], &a[4]),
-        "huffx" => mode_huffx(&a[2], a[3].parse().unwrap(), &a[4]),
+        "huffx" => mode_huffx(&a[2], a[3].parse().unwrap(), &a[4], a.get(5).map(|x| x.parse().unwrap()).unwrap_or(1).max(1)),
         "henc" => mode_henc(&a[2], &a[3]),
         "int" => mode_int(&a[2], &a[3]),
         "names" => mode_names(a[2].parse().unwrap(), &a[3]),
